@@ -112,7 +112,7 @@ def run(ctx):
             ctx.count("ard_modulus_with_leading_zero_bytes")
         if m < 3:
             m = 251 if L == 1 else (1 << (8 * L - 1)) + 1
-        g = r.choice([2, 3, 5, 7])
+        g = r.choice([2, 3, 5, 7, 2, 5, 0x7FFF, 0x8000, 0xFFFF, 65521, r.randrange(2, 65536)])
         a = r.getrandbits(64) | 1
         sk = pow(g, a, m)
         # engineer secrets whose public or shared value has leading zero bytes
@@ -145,12 +145,13 @@ def run(ctx):
     for (g, L, m, sk, a, sec, user, pw) in ard_cases:
         del trace[:]
         c.factory.username, c.factory.password = user, pw
-        c.generator, c.keyLen = g, L
-        c.modulus = m.to_bytes(L, "big")
-        c.serverKey = sk.to_bytes(L, "big")
         try:
+            # the parameters as they arrive on the wire: generator and key length (2 x u16), modulus, server key
+            c._handleDHAuth(struct.pack("!HH", g, L))
+            c._handleDHAuthKey(m.to_bytes(L, "big"))
+            del trace[:]
             with mock.patch("os.urandom", lambda n, sec=sec: sec.to_bytes(n, "big")):
-                c._encryptArd()
+                c._handleDHAuthCert(sk.to_bytes(L, "big"))
             reply = trace[-1][1]
             err = None
         except Exception as e:  # noqa
